@@ -1418,3 +1418,10 @@ TABLE["C15"] += [
     B("ignore-entries-matched-as-prefixes", {"X5"},
       (PW, "        if cpp_class in self.ignore_classes:\n            return \"\"\n        if instantiated_class.parent_class:", "        if any(cpp_class.startswith(entry) for entry in self.ignore_classes if entry):\n            return \"\"\n        if instantiated_class.parent_class:")),
 ]
+TABLE["C16"] += [
+    B("initialisers-declared-in-alphabetical-order", {"Y2"},
+      (PW, _SUBMODS, "        submodules = sorted(Path(source).stem for source in sources[1:])\n")),
+    N("matlab-files-joined-with-a-line-break",
+      (MW, "        content = \"\"\n        modules = {}\n        for file in files:\n            with open(file, 'r', encoding=\"UTF-8\") as f:\n                # Keep the files apart: the last line of one file must not run\n                # into the first line of the next.\n                content += f.read() + \"\\n\"\n",
+       "        modules = {}\n        texts = []\n        for file in files:\n            with open(file, 'r', encoding=\"UTF-8\") as f:\n                texts.append(f.read())\n        content = \"\\n\".join(texts) + \"\\n\"\n")),
+]
